@@ -55,17 +55,24 @@ var absSpecs = map[string]absSpec{
 func emitAbsTrace(spec absSpec, role string, steps []string, w *World, emit func(op, res string)) {
 	emit(strings.TrimSpace(fmt.Sprintf("abs.reset %s %s %s", spec.prop, leanRole(role), spec.params(steps))), "ok")
 	alive := true
+	persisted := false
 	for _, o := range w.obs {
 		switch o.Kind {
 		case "persist":
 			if o.Swap != "s1" {
 				continue
 			}
+			persisted = true
 			st := o.A["state"]
 			if st == "" {
 				st = "-"
 			}
 			emit(fmt.Sprintf("abs.persist %s %s", st, spec.flags(o.A)), "ok")
+		case "step":
+			// the step returned: the process (if alive) is at rest; is the swap in the service's active map?
+			if alive && persisted && o.A["active"] != "" {
+				emit("abs.rest "+o.A["active"], "ok")
+			}
 		case "crash":
 			emit("abs.crash", "ok")
 			alive = false
@@ -91,6 +98,21 @@ func registerAbsSlices() {
 					}
 				}
 				all = kept
+			}
+			// the retry budget of one event used up in the claim states (25 failures of the wallet in a row)
+			for _, role := range spec.roles {
+				for _, chain := range []string{"btc", "lbtc"} {
+					if spec.chain != "" && chain != spec.chain {
+						continue
+					}
+					base := baseScript(role, chain)
+					fault, trigger := "fault csv down", "csv"
+					if isTaker(role) {
+						fault, trigger = "fault preimage down", "confirm"
+					}
+					steps := cat(base[:len(base)-1], rep(fault, 25), []string{trigger, "restart", trigger})
+					all = append(all, scn{role: role, steps: steps})
+				}
 			}
 			for i := 0; i < n; i++ {
 				role := spec.roles[r.intn(len(spec.roles))]
